@@ -49,7 +49,7 @@ ASSUMPTIONS = [
     "an identifier already registered is not loaded again (no duplicate identifiers in valid files)",
 ]
 RULE = (
-    "7 family files built by the library (groups 3 levels deep; points/curve/surface with data and property groups; "
+    "8 family files built by the library (an 'orphan' file in which Group.remove_children left an object in the flat containers; groups 3 levels deep; points/curve/surface with data and property groups; "
     "grid2d/blockmodel/octree; concatenated drillholes (v2); plain drillhole (v1); text/referenced data with value map, colour map, "
     "comments; geoimage); each case = one family + a chunk of its items; quick: a seed-dependent third of the items of each "
     "kind, at least one per kind, and every attribute and entry of every property group (3+2+... groups per object), thorough: "
@@ -67,7 +67,8 @@ LEVEL_TEXT = (
     "on every run (rows with file:line) and the 20 rows the model consumes are checked by vm_compute (C19_reader_guards/_table): "
     "removing a try/except, a .get or an `in` test breaks them; C19_swallowing_scopes fixes what sits inside each swallowing "
     "try/except (6 scopes); C19_property_group_item_local: an item of one property group leaves the object's other property "
-    "groups and fields as they were (per-object read). Tie: every corpus file is checked to be a laid-out well-formed tree "
+    "groups and fields as they were (per-object read); C19_session_state_reset: open() resets the registries and the root is "
+    "assigned unconditionally (what makes load a function of the file alone for a re-used Workspace object). Tie: every corpus file is checked to be a laid-out well-formed tree "
     "(scan_matchb, wfb, intact_ok) and every selected single deletion of the 6 modelled family files is replayed on geoh5py and "
     "compared with the model inside Coq (error kind, lost set, altered set - exactly for the Root link -, fresh identifiers, property groups one by one, "
     "theorem instance); the concatenated (v2) drillhole family is oracle-only; the Version-dependent choice of concatenated "
@@ -94,8 +95,8 @@ def _docs():
 
 
 # ----------------------------------------------------------------------------- generation
-FAMILIES = ["groups", "pcs", "grids", "drillhole", "drillhole_v1", "textref", "geoimage"]
-CHUNKS = {"groups": 6, "pcs": 10, "grids": 6, "drillhole": 6, "drillhole_v1": 6, "textref": 6, "geoimage": 3}
+FAMILIES = ["groups", "pcs", "grids", "drillhole", "drillhole_v1", "textref", "geoimage", "orphan"]
+CHUNKS = {"groups": 6, "pcs": 10, "grids": 6, "drillhole": 6, "drillhole_v1": 6, "textref": 6, "geoimage": 3, "orphan": 3}
 
 
 def generate(rng, tier):
@@ -180,6 +181,79 @@ def _described(sc, it, ref, users_of_type):
     return [], []
 
 
+_UUID = None
+
+
+def _normalised(ref, w):
+    """Snapshot with run-dependent identifiers replaced: every uuid that does not occur in the reference walk (a rebuilt root, an
+    entity or type without ID, a defaulted reference) is drawn anew on each read and becomes NEW."""
+    import re
+
+    global _UUID
+    if _UUID is None:
+        _UUID = re.compile(r"[0-9a-f]{8}-[0-9a-f]{4}-[0-9a-f]{4}-[0-9a-f]{4}-[0-9a-f]{12}")
+    known = ref.get("_known")
+    if known is None:
+        known = ref["_known"] = set(_UUID.findall(json.dumps(ref["entities"]))) | set(ref["entities"])
+
+    def nv(v):
+        if isinstance(v, str):
+            return _UUID.sub(lambda m: m.group(0) if m.group(0) in known else "NEW", v)
+        if isinstance(v, list):
+            return [nv(x) for x in v]
+        if isinstance(v, dict):
+            return {nv(k): nv(x) for k, x in v.items()}
+        return v
+
+    ents = {}
+    for u, e in w["entities"].items():
+        e2 = nv(e)
+        if isinstance(e2.get("children"), list):
+            e2["children"] = sorted(e2["children"])
+        if isinstance(e2.get("property_groups"), list):
+            e2["property_groups"] = sorted(json.dumps(g, sort_keys=True) for g in e2["property_groups"])
+        key = nv(u)
+        if key == "NEW":
+            key = f"NEW:{e.get('class')}:{e.get('name')}"
+        ents.setdefault(key, []).append(e2)
+    for k in ents:
+        ents[k].sort(key=lambda d: json.dumps(d, sort_keys=True, default=str))
+    tree = sorted([d, c, n, nv(u), r] for d, c, n, u, r in w.get("tree", []))
+    return ents, tree, nv(w.get("project"))
+
+
+def _reuse_diff(ref, fresh, reused):
+    """None when the re-used Workspace object returns what a fresh reader returns; else a short description."""
+    if fresh["open"] != "ok" or reused["open"] != "ok":
+        a = fresh["open"] if fresh["open"] == "ok" else fresh["open"]["exc"]
+        b = reused["open"] if reused["open"] == "ok" else reused["open"]["exc"]
+        return None if a == b else {"what": f"fresh reader: {a}, re-used workspace: {b}"}
+    fe, ft, fp = _normalised(ref, fresh)
+    re_, rt, rp = _normalised(ref, reused)
+    probs = []
+    if fp != rp:
+        probs.append(f"project attributes differ: fresh {fp}, re-used {rp}"[:200])
+    if sorted(fe) != sorted(re_):
+        probs.append(f"entities differ: only fresh {sorted(set(fe) - set(re_))[:4]}, only re-used {sorted(set(re_) - set(fe))[:4]}")
+    else:
+        for k in fe:
+            if fe[k] != re_[k]:
+                a, b = fe[k][0], re_[k][0]
+                probs.append(f"{k[:8]} {a.get('class')}:{a.get('name')} differs in {[f for f in a if a.get(f) != b.get(f)][:5]}")
+                break
+    if ft != rt:
+        probs.append(f"tree under the root differs: fresh {len(ft)} nodes, re-used {len(rt)} nodes")
+    def dup(tr):
+        ids = [u for _, _, _, u, _ in tr if "NEW" not in str(u)]
+        return len(set(ids)) != len(ids)
+
+    if dup(rt) and not dup(ft):
+        probs.append("an identifier appears more than once in the tree of the re-used workspace")
+    if any(not r for *_, r in rt) and not any(not r for *_, r in ft):
+        probs.append("the tree of the re-used workspace holds entities that are not registered (stale)")
+    return {"what": "; ".join(probs)[:400]} if probs else None
+
+
 def drive_one(case, work):
     import warnings
 
@@ -189,6 +263,7 @@ def drive_one(case, work):
     fam = case["family"]
     base = f"{work}/c19-{fam}.geoh5"
     dmg = f"{work}/c19-{fam}-dmg.geoh5"
+    dmg2 = f"{work}/c19-{fam}-dmg2.geoh5"
     fd = os.open(os.devnull, os.O_WRONLY)
     saved = os.dup(2)
     os.dup2(fd, 2)  # h5repack-not-found chatter of the library
@@ -253,9 +328,14 @@ def drive_one(case, work):
         I.delete_item(dmg, it)
         h = I.sha256(dmg)
         w = I.walk(dmg, "r")
+        # the same deletion read through a re-used Workspace object (opened on the intact file, closed, file damaged, .open() again)
+        shutil.copy(base, dmg2)
+        wr = I.walk_reused(dmg2, lambda it=it: I.delete_item(dmg2, it), "r")
         ob = {"i": i, "kind": it["kind"], "t": it["t"], "name": it["name"], "role": it["role"], "where": it["h5path"].split("/", 2)[-1][-90:],
               "mitem": I.model_item(sc, it) if spec is not None else None,
               "hash_changed": I.sha256(dmg) != h}
+        ob["reuse"] = _reuse_diff(ref, w, wr)
+        ob["unread"] = [[o(u), lab] for u, lab in I.stored_unread(dmg, w)] if w["open"] == "ok" else []
         perm, desc = _described(sc, it, ref, users_of_type)
         dset = descendants([d.strip("{}") for d in perm if d and d.strip("{}") in ref["entities"]])
         if it["kind"] == "link|workspace|Root":  # the Root link describes the root group only: the hierarchy is in the child containers
@@ -327,7 +407,7 @@ def drive_one(case, work):
                        "proj_changed": w["project"] != ref["project"],
                        "root_same": w["root"] == ref["root"], "close": w.get("close")})
         res["obs"].append(ob)
-    for p in (base, dmg):
+    for p in (base, dmg, dmg2):
         if os.path.exists(p):
             os.remove(p)
     return res
@@ -501,6 +581,9 @@ def oracle(case, obs):
         where = f"{obs['family']} item {ob['i']} ({kind} at {ob['where']})"
         if ob["hash_changed"]:
             fails.append({"key": f"file-changed-by-read:{kind}", "what": f"{where}: opening/reading in mode r changed the file's SHA-256"})
+        if ob.get("reuse"):
+            fails.append({"key": f"reused-workspace-differs:{kind}",
+                          "what": f"{where}: a Workspace object re-opened on the damaged file differs from a fresh reader: {ob['reuse']['what']}"})
         if ob["open"] != "ok":
             if cls == "optional":
                 fails.append({"key": f"optional-deletion-raises:{kind}", "what": f"{where}: optional item missing -> {ob['open']['exc']}: {ob['open'].get('msg', '')[:120]}"})
@@ -529,6 +612,11 @@ def oracle(case, obs):
                           "what": f"{where}: property groups the item does not describe are "
                                   + (f"missing: {pgm[:4]} " if pgm else "") + (f"changed: {pga[:4]} " if pga else "")
                                   + (f"unreadable on {names(ob['pg_error'])}" if ob.get("pg_error") else "")})
+        unread = [x for x in ob.get("unread", []) if x[0] is None or x[0] not in D]
+        if unread:
+            fails.append({"key": f"stored-dataset-not-read:{kind}",
+                          "what": f"{where}: datasets present in the file come back as None: "
+                                  + ", ".join(f"{ents.get(str(x[0]), 'recovered entity')}.{x[1]}" for x in unread[:5])})
         if ob["proj_changed"] and not (ob["role"] == "workspace" and ob["t"] == "attr"):
             fails.append({"key": f"project-attributes-altered:{kind}", "what": f"{where}: project attributes changed"})
         if cls == "optional":
